@@ -1,4 +1,5 @@
 """Random boolean expression operands for C06/C07: (library operand, python evaluator, description)."""
+from .. import gen
 from .. import lib as L
 
 GATES = {"AND": lambda v: all(v), "OR": lambda v: any(v), "XOR": lambda v: sum(v) % 2 == 1,
@@ -8,6 +9,8 @@ ALL = list(GATES) + ["NOT", "BUFFER"]
 
 def leaf(rng, labs, allow=("label", "var", "dict", "model")):
     l = rng.choice(labs)
+    if rng.random() < 0.4:
+        l = gen.fresh(l)         # equal to, but not the same object as, the label other leaves use
     how = rng.choice(allow)
     if how == "label":
         return l, (lambda x, l=l: x[l]), repr(l)
